@@ -30,6 +30,7 @@ CL = [
  ("hql","fields_term_semi","FIELDS TERMINATED BY ';'"), ("hql","fields_term_tab","FIELDS TERMINATED BY '\t'"), ("hql","lines_term_semi","LINES TERMINATED BY ';'"),
  ("hql","map_keys_tab","MAP KEYS TERMINATED BY '\t'"), ("hql","collection_items_semi","COLLECTION ITEMS TERMINATED BY ';'"), ("hql","location_semi","LOCATION 's3://b/p;v1'"),
  ("snowflake","comment_semi","COMMENT = 'a; b'"), ("hql","tblproperties_semi","TBLPROPERTIES ('k;1'='v;1')"), ("hql","fields_term_pipe","FIELDS TERMINATED BY '|'"),
+ ("hql","lines_term_num","LINES TERMINATED BY 10"), ("hql","fields_term_num","FIELDS TERMINATED BY 124"), ("hql","map_keys_num","MAP KEYS TERMINATED BY 3"),
  ("ibm_db2","in","IN ts1"), ("ibm_db2","index_in","INDEX IN ts2"), ("ibm_db2","organize_by","ORGANIZE BY ROW"),
 ]
 base = {}
